@@ -351,6 +351,11 @@ func isNextval(e ast.ExprNode) bool {
 	return ok && fc.FnName.L == "nextval"
 }
 
+// isStubSeq recognises a value handed out by shardfix.StubSequence (1000001...).
+func isStubSeq(s string) bool {
+	return isIntText(s) && len(s) == 7 && s[0] == '1' && s != "1000000"
+}
+
 func isIntText(s string) bool {
 	if s == "" {
 		return false
@@ -785,34 +790,47 @@ func (v *verifier) verify(rows []int) string {
 	}
 	used := make([]bool, len(v.out))
 	seqSeen := map[string]bool{}
+	match := make(map[int]int) // row -> written
+	genOf := make(map[int]bool)
+	// first the rows written as they stand, then the rows whose sequence column was generated
 	for _, i := range rows {
-		r := in.rows[i]
-		gen := seqGenerated(r)
-		exactKey := rowKey(in.cols, r)
-		found := -1
+		exactKey := rowKey(in.cols, in.rows[i])
 		for j, w := range v.out {
-			if used[j] {
-				continue
-			}
-			if rowKey(w.cols, w.row) == exactKey {
-				// written as it stands (also when the session has no database and Gaea
-				// therefore finds no sequence for the table: not this property's concern)
-				found, gen = j, false
+			if !used[j] && rowKey(w.cols, w.row) == exactKey {
+				// (also when the session has no database and Gaea therefore finds no
+				// sequence for the table: not this property's concern)
+				used[j], match[i] = true, j
 				break
 			}
-			if !gen || strip(w.cols, w.row) != strip(in.cols, r) {
+		}
+	}
+	for _, i := range rows {
+		if _, done := match[i]; done {
+			continue
+		}
+		r := in.rows[i]
+		if !seqGenerated(r) {
+			continue
+		}
+		for j, w := range v.out {
+			if used[j] || strip(w.cols, w.row) != strip(in.cols, r) {
 				continue
 			}
-			if sv, has := w.row.vals[seqCol]; !has || !isIntText(sv) {
+			if sv, has := w.row.vals[seqCol]; !has || !isStubSeq(sv) {
 				continue
 			}
-			found = j
+			used[j], match[i], genOf[i] = true, j, true
 			break
 		}
-		if found < 0 {
+	}
+	for _, i := range rows {
+		r := in.rows[i]
+		exactKey := rowKey(in.cols, r)
+		found, ok := match[i]
+		if !ok {
 			return fmt.Sprintf("%s rule: row %d (%s) of %q is not written by any of the %d executed statements %v", l.Kind, i, exactKey, v.sql, len(v.stmts), sqlsOf(v.stmts))
 		}
-		used[found] = true
+		gen := genOf[i]
 		w := v.out[found]
 		want := v.classes[i].want
 		if gen {
